@@ -215,6 +215,10 @@ def rule_f(F):
             a0 = op_local(t["args"][0])
             if a0 is not None and origin_call_block(run, du, a0) == pb:
                 own_fail.add(bi)
+    # the same branch written as `match` / `if let` / `let else` / `.is_err()`: the targets of the edges that are taken only
+    # when the push itself failed
+    from rules.c16 import failure_edges
+    own_fail |= set(tb for (_sb, tb) in failure_edges(run, du, pb) if tb is not None)
     rets = set(cfg.return_blocks())
     r = cfg.reachable_from(pt["target"], avoid=set(pops) | own_fail)
     key = "C17/F/run/entry-frame-balanced"
@@ -297,7 +301,13 @@ def _c05_rule_a(F):
     return _c05.rule_a(F)
 
 
+def _c05_rule_o(F):
+    from rules import c05 as _c05
+    return _c05.rule_o(F)
+
+
 RULES = [
+    Rule("C17.O", shared(_c05_rule_o, "C05.O", "C17.O"), 7, "every block charged by the accounting allocator has an owner on every exit: a refused run leaves nothing charged that clear() cannot return (shared with C05.O)"),
     Rule("C17.M", shared(_c05_rule_m, "C05.M", "C17.M"), 2, "a VM whose limit was changed collects and accounts like a new VM with that limit (shared with C05.M)"),
     Rule("C17.A", shared(_c05_rule_a, "C05.A", "C17.A"), 5, "accounted memory is a running balance moved only by alloc / dealloc: clear() may not overwrite it (shared with C05.A)"),
     Rule("C17.C", rule_c, 6, "clear (or the start of run) resets every field a run can write"),
